@@ -49,6 +49,7 @@ Structure(r) ==
       /\ HdrChk(In(r), SigAt, 62)
       /\ SigPadZero(In(r))
       /\ HdrChk(In(r), HdrAt(In(r)), 63)
+      /\ RpmlibOk(In(r), HdrAt(In(r)))
 
 \* ---- C05
 RECURSIVE Utf8Valid(_, _)
